@@ -27,7 +27,19 @@ import (
 func init() { register("C20", runC20) }
 
 const lineBuf = 2048
-const fitSlack = 64 // arrays are compared exactly only when their reference rendering leaves this much room
+const fitSlack = 64 // random field sequences are compared exactly only when their reference rendering leaves this much room
+// arraySlack is the room a single array appended at a chosen fill level must leave to be compared exactly: the appenders of the
+// unchanged tree keep at most 4 bytes in reserve (terminator, closing bracket, separator), so "fits" is judged almost to the byte
+const arraySlack = 8
+
+// slackFor: IPArray reserves the longest possible address text (39+3) before each element whatever the element is, so an
+// address list is compared exactly only when that reserve is left
+func slackFor(kind string) int {
+	if kind == "IPArray" {
+		return 48
+	}
+	return arraySlack
+}
 
 var c20Logger = fastlog.New("verif")
 
@@ -299,7 +311,7 @@ func (t *c20) overflow(fill int, f field, what string) {
 		return
 	}
 	body := got[len(prefix):]
-	if len(prefix)+len(f.ref) <= lineBuf-fitSlack {
+	if len(prefix)+len(f.ref) <= lineBuf-slackFor(f.kind) {
 		if body != f.ref {
 			m := cs()
 			m["got"] = body
@@ -307,6 +319,9 @@ func (t *c20) overflow(fill int, f field, what string) {
 			return
 		}
 		c.Class("array-fits:" + f.kind)
+		if len(prefix)+len(f.ref) > lineBuf-fitSlack {
+			c.Class("array-fits-in-last-64:" + f.kind)
+		}
 		return
 	}
 	// truncated: the statement only demands "inside the buffer, no overflow"; malformed punctuation of a truncated
@@ -482,13 +497,33 @@ func runC20(c *wk.Ctx) {
 	}
 	// (4) arrays longer than the buffer at every fill level
 	step := int(c.N(3, 1))
+	// ... and short arrays (1..3 elements) at every single fill level of the last 96 bytes, where "still fits" and "must be
+	// truncated" are a few bytes apart
+	type ovfCase struct{ fill, kind, nel int }
+	var ovf []ovfCase
 	for fill := 7; fill < lineBuf; fill += step {
 		for kind := 0; kind < 3; kind++ {
+			ovf = append(ovf, ovfCase{fill, kind, -1})
+		}
+	}
+	for fill := lineBuf - 96; fill < lineBuf; fill++ {
+		for kind := 0; kind < 3; kind++ {
+			for nel := 1; nel <= 3; nel++ {
+				ovf = append(ovf, ovfCase{fill, kind, nel})
+			}
+		}
+	}
+	for _, oc := range ovf {
+		fill, kind := oc.fill, oc.kind
+		{
 			if !next() {
 				continue
 			}
-			r := c.Rand("c20ovf", int64(fill*3+kind))
+			r := c.Rand("c20ovf", int64(fill*3+kind)*8+int64(oc.nel+1))
 			nel := []int{1, 5, 40, 700, 4096}[r.Intn(5)]
+			if oc.nel >= 0 {
+				nel = oc.nel
+			}
 			var f field
 			switch kind {
 			case 0:
